@@ -254,7 +254,8 @@ Definition ex_s : amm := fst (fst ex_run).
    its lower tick) has its share left to claim; one coin per denom stays in the account as rounding *)
 Example C06_nonvacuous :
   FeeWF ex_s0 /\ Inv ex_s0 /\ Forall op_wf ex_ops /\
-  FeeWF ex_s /\ fee_wf_b ex_s = true /\
+  run_ghost ex_s0 vzero vzero ex_ops = ex_run /\
+  fee_wf_b ex_s = true /\
   (* receipts and payouts of the history, per denom *)
   snd (fst ex_run) = [0; 30000007; 1000003; 999] /\
   snd ex_run = [0; 19608102; 287472; 287] /\
@@ -267,11 +268,13 @@ Proof.
   split; [constructor; cbn; try reflexivity; constructor|].
   split; [apply fresh_pool_inv|].
   split; [repeat constructor|].
-  split.
-  { apply (C06_fee_account_history ex_ops ex_s0 vzero vzero ex_s (snd (fst ex_run)) (snd ex_run)); try reflexivity.
-    - constructor; cbn; try reflexivity; constructor.
-    - repeat constructor. }
-  vm_compute. repeat split. eexists. reflexivity.
+  split; [vm_compute; reflexivity|].
+  split; [vm_compute; reflexivity|].
+  split; [vm_compute; reflexivity|].
+  split; [vm_compute; reflexivity|].
+  split; [vm_compute; reflexivity|].
+  split; [vm_compute; reflexivity|].
+  vm_compute. eexists. reflexivity.
 Qed.
 
 (* the cursor hypothesis of the two partial theorems is satisfiable: it holds for the swap of the
@@ -282,8 +285,24 @@ Example C06_cursor_ok_nonvacuous :
   exists s' i o, swap ex_s2 true 1 0 600000000 true = Ok (s', i, o) /\ p_tick (a_pool ex_s2) < 2 <= p_tick (a_pool s').
 Proof.
   split.
-  { intros limit H. vm_compute in H. injection H as <-. vm_compute. repeat split; discriminate. }
+  { assert (E : sqrt_price_limit (if 1 =? 0 then MIN_MULT_SPOT else MAX_MULT_SPOT) (1 =? 0) = Ok 10000000000000000000000000000000000000)
+      by (vm_compute; reflexivity).
+    intros limit H. rewrite E in H. injection H as <-. vm_compute. repeat split; discriminate. }
   split.
   { repeat (constructor; [|repeat constructor; reflexivity]). constructor. }
   vm_compute. do 3 eexists. split; [reflexivity|]. split; [reflexivity|discriminate].
+Qed.
+
+(* regression for the repaired defect "AllocateIncentive accrued before it took the coins": called
+   outside a transaction (as BeginBlock does) with a sender that cannot pay, the pre-fix order left
+   the growth in the accumulator - the positions could then claim more than the fee account holds;
+   the repaired order leaves the state untouched. *)
+Example C06_allocate_prefix_refuted :
+  let coins := [0; 5000000000000000000000000000000000000; 0; 0] in
+  vle (claimable_sum ex_s) (a_bal_fee ex_s) = true /\
+  vle (claimable_sum (allocate_nontx_prefix ex_s coins)) (a_bal_fee (allocate_nontx_prefix ex_s coins)) = false /\
+  a_bal_fee (allocate_nontx_prefix ex_s coins) = a_bal_fee ex_s /\
+  allocate_nontx ex_s coins = ex_s.
+Proof.
+  cbv zeta. split; [vm_compute; reflexivity|]. split; [vm_compute; reflexivity|]. split; vm_compute; reflexivity.
 Qed.
